@@ -385,6 +385,15 @@ def guarded_run(prop, case, ctx):
     except CaseTimeout:
         return Mismatch('case did not finish within %ds' % prop.case_timeout_s,
                         impl='Timeout', model=None, signature='timeout')
+    except (HarnessError, KeyboardInterrupt):
+        raise
+    except Exception as e:  # pylint: disable=broad-except
+        # the comparison code itself tripped over what the implementation returned (a value of an unexpected kind, an
+        # infinity where a number was due, ...): that is a disagreement to report, not a reason to give up the whole run
+        ctx.note('uninterpretable:' + type(e).__name__)
+        return Mismatch('the check could not interpret what the implementation returned: %r' % (e,),
+                        impl=traceback.format_exc()[-1500:], model=None, signature='uninterpretable:' + type(e).__name__,
+                        relation='model-only')
     finally:
         signal.alarm(0)
 
@@ -519,7 +528,7 @@ def run_check(prop, tier='quick', seed=0, replay=None):
 
         def stream():
             cdir = os.path.join(VERIF, 'corpus', prop.id)
-            if os.path.isdir(cdir):
+            if os.path.isdir(cdir) and not os.environ.get('VERIF_NO_CORPUS'):
                 for fn in sorted(os.listdir(cdir)):
                     if fn.endswith('.json'):
                         yield 'corpus', json.load(open(os.path.join(cdir, fn)))['case']
